@@ -6,7 +6,7 @@
   * A thread is a list of requests; a transaction is the operation sequence
       acquire(client lock) ; connect ; acquire(manager lock) ; tid++ ; connect ; send₁ ; send₂ ;
       wait^lat ; recv₁ ; recv₂ ; process ; release(manager lock) ; release(client lock)
-    (the frame reaches the wire in two writes, MBAP header then PDU, so that an interleaving of two frames is
+    (before the send `_flush_input` discards what waits on the socket; the frame reaches the wire in two writes, MBAP header then PDU, so that an interleaving of two frames is
     observable; `wait` = a poll of the transport that finds the reply not yet there).
   * `connect` is `ModbusTcpClient.connect`: check-then-act — `if self.socket: return True`, otherwise
     `self.socket = socket.create_connection(…)`, a blocking call: a `connect` that finds no connection is followed by
@@ -44,7 +44,9 @@ structure Req where
       perKey key      – no client lock, one manager lock per key (e.g. per unit id)
       outerPerKey key – client lock whole, one manager lock per key
       none            – no lock at all
-      sendOnly        – no client lock, one manager lock held around the send only -/
+      sendOnly        – no client lock, one manager lock held around the send only
+      leakOnFail      – both locks as shipped, but the client lock is NOT given back when the connect of
+                        `BaseModbusClient.execute` fails (explicit acquire / try-finally with the connect in between) -/
 inductive LockScope where
   | whole
   | connectOutside
@@ -53,15 +55,17 @@ inductive LockScope where
   | outerPerKey (key : Req → Nat)
   | none
   | sendOnly
+  | leakOnFail
 
 inductive Op where
-  | cacquire | preconnect | open | acquire | tid | connect | send1 | send2 | wait | recv1 | recv2 | process | release
-  | crelease
+  | cacquire | preconnect | open | acquire | tid | connect | iopen | flush | send1 | send2 | wait | recv1 | recv2
+  | process | release | crelease
   deriving DecidableEq, Repr, Inhabited
 
 def Op.name : Op → String
   | .cacquire => "acquire" | .crelease => "release"
-  | .preconnect => "connect" | .open => "open" | .acquire => "acquire" | .tid => "tid" | .connect => "connect"
+  | .preconnect => "connect" | .open => "open" | .iopen => "open" | .flush => "flush"
+  | .acquire => "acquire" | .tid => "tid" | .connect => "connect"
   | .send1 => "send1" | .send2 => "send2" | .wait => "wait" | .recv1 => "recv" | .recv2 => "recv"
   | .process => "process" | .release => "release"
 
@@ -73,22 +77,22 @@ def Op.isYield : Op → Bool
 
 /-- the part of a transaction between the manager's lock operations -/
 def coreOps (r : Req) : List Op :=
-  [.tid, .connect, .send1, .send2] ++ (List.replicate r.lat .wait ++ [.recv1, .recv2, .process])
+  [.tid, .connect, .flush, .send1, .send2] ++ (List.replicate r.lat .wait ++ [.recv1, .recv2, .process])
 
 /-- the operations of one call of `BaseModbusClient.execute` -/
 def txnOps (scope : LockScope) (r : Req) : List Op :=
   match scope with
-  | .whole | .outerPerKey _ =>
-      [.cacquire, .preconnect, .acquire, .tid, .connect, .send1, .send2] ++
+  | .whole | .outerPerKey _ | .leakOnFail =>
+      [.cacquire, .preconnect, .acquire, .tid, .connect, .flush, .send1, .send2] ++
       (List.replicate r.lat .wait ++ [.recv1, .recv2, .process, .release, .crelease])
   | .connectLocked =>
-      [.cacquire, .preconnect, .crelease, .acquire, .tid, .connect, .send1, .send2] ++
+      [.cacquire, .preconnect, .crelease, .acquire, .tid, .connect, .flush, .send1, .send2] ++
       (List.replicate r.lat .wait ++ [.recv1, .recv2, .process, .release])
   | .connectOutside | .perKey _ =>
-      [.preconnect, .acquire, .tid, .connect, .send1, .send2] ++
+      [.preconnect, .acquire, .tid, .connect, .flush, .send1, .send2] ++
       (List.replicate r.lat .wait ++ [.recv1, .recv2, .process, .release])
   | .none => .preconnect :: coreOps r
-  | .sendOnly => [.preconnect, .tid, .connect, .acquire, .send1, .send2, .release] ++
+  | .sendOnly => [.preconnect, .tid, .connect, .flush, .acquire, .send1, .send2, .release] ++
       (List.replicate r.lat .wait ++ [.recv1, .recv2, .process])
 
 /-- lock 0 is the client lock; the manager lock(s) are numbered from 1 -/
@@ -97,7 +101,7 @@ def clientKey : Nat := 0
 /-- which manager lock a transaction takes -/
 def lockKey (scope : LockScope) (r : Req) : Option Nat :=
   match scope with
-  | .whole | .connectOutside | .connectLocked | .sendOnly => some 1
+  | .whole | .connectOutside | .connectLocked | .sendOnly | .leakOnFail => some 1
   | .perKey key | .outerPerKey key => some (1 + key r)
   | .none => Option.none
 
@@ -141,6 +145,8 @@ structure State where
   tid : Nat := 0                       -- manager.tid
   sock : Option Nat := Option.none     -- client.socket: the connection in use (none = closed)
   nextConn : Nat := 0                  -- connections are numbered in the order they are opened
+  attempts : Nat := 0                  -- number of `create_connection` calls so far
+  connOk : Nat → Bool := fun _ => true -- the scripted world: does the k-th `create_connection` succeed
   wire : List Chunk := []              -- what was written to the transport (any connection), in order
   pending : Nat → Bytes := fun _ => [] -- per connection: bytes the peer has not yet parsed into a frame
   stream : Nat → Bytes := fun _ => []  -- per connection: reply bytes not yet read
@@ -215,30 +221,43 @@ def decodeResp (pdu : Bytes) : Option Msg :=
       | [] => none
     else none
 
-/-- `ModbusSocketFramer.processIncomingPacket` (loop over `tcpStep`), with the callback
-    `partial(addTransaction, tid=request tid)`: every delivery overwrites the one stored entry.
-    Returns (last delivery, raised ModbusIOException?, buffer left). -/
-def procRun (unit : Nat) : Nat → Bytes → Option Result → Option Result × Bool × Bytes
+/-- `ModbusTransactionManager._addReply`: a decoded reply is filed only if it answers THIS request — function code of
+    the request (3) or that code with the exception flag, and the transaction id of the request -/
+def answers (reqTid tid : Nat) (m : Msg) : Bool :=
+  tid == reqTid && (match m with
+    | .regs _ => true
+    | .exc fc _ => fc == 0x83)
+
+/-- `ModbusSocketFramer.processIncomingPacket` (loop over `tcpStep`), with the callback `partial(_addReply, request)`:
+    every accepted delivery overwrites the one stored entry.
+    Returns (last accepted delivery, raised ModbusIOException?, buffer left). -/
+def procRun (unit reqTid : Nat) : Nat → Bytes → Option Result → Option Result × Bool × Bytes
   | 0, buf, last => (last, false, buf)
   | fuel + 1, buf, last =>
     match tcpStep buf with
     | .wait => (last, false, buf)
     | .flush => (last, false, [])
-    | .skip n => procRun unit fuel (buf.drop n) last
+    | .skip n => procRun unit reqTid fuel (buf.drop n) last
     | .frame n pdu uid tid _ =>
       if validUnit [unit] false uid then
         match decodeResp pdu with
         | none => (last, true, buf.drop n)
-        | some m => procRun unit fuel (buf.drop n) (some (.ok tid uid m))
-      else procRun unit fuel (buf.drop n) last
+        | some m =>
+          procRun unit reqTid fuel (buf.drop n) (if answers reqTid tid m then some (.ok tid uid m) else last)
+      else procRun unit reqTid fuel (buf.drop n) last
 
-/-- `processIncomingPacket(response, addTransaction, unit)` then `getTransaction(tid)` / the "no response" exception -/
-def processResp (unit : Nat) (buf resp : Bytes) : Result × Bytes :=
-  let r := procRun unit ((buf ++ resp).length + 1) (buf ++ resp) none
+/-- `processIncomingPacket(response, _addReply, unit)` then `getTransaction(tid)` / the "no response" exception (a
+    reply filed before an undecodable frame is dropped) -/
+def processResp (unit reqTid : Nat) (buf resp : Bytes) : Result × Bytes :=
+  let r := procRun unit reqTid ((buf ++ resp).length + 1) (buf ++ resp) none
   if r.2.1 then (.err .modbusIO, r.2.2)
   else match r.1 with
     | some res => (res, r.2.2)
     | none => (.err .modbusIO, r.2.2)
+
+def Result.isOk : Result → Bool
+  | .ok _ _ _ => true
+  | _ => false
 
 /-- size of the second read: `h_size + (length - 1) - min_size` for a normal reply, `exception_length - min_size`
     for an exception reply; a negative size reads nothing -/
@@ -283,9 +302,30 @@ def stepOp (scope : LockScope) (s : State) (t : Nat) (th : Thread) (ops : List O
     | some _ => { s with threads := upd s.threads t { th with ops := ops }, trace := (t, .preconnect) :: s.trace }
     | Option.none =>
       { s with threads := upd s.threads t { th with ops := .open :: ops }, trace := (t, .preconnect) :: s.trace }
-  | .open =>      -- `self.socket = socket.create_connection(…)` completes: a fresh connection replaces `client.socket`
-    { s with sock := some s.nextConn, nextConn := s.nextConn + 1,
-             threads := upd s.threads t { th with ops := ops, sconn := s.nextConn }, trace := (t, .open) :: s.trace }
+  | .open =>      -- the `create_connection` of the connect in `BaseModbusClient.execute` completes
+    if s.connOk s.attempts then     -- a fresh connection replaces `client.socket`
+      { s with sock := some s.nextConn, nextConn := s.nextConn + 1, attempts := s.attempts + 1,
+               threads := upd s.threads t { th with ops := ops, sconn := s.nextConn }, trace := (t, .open) :: s.trace }
+    else            -- refused: `connect()` returns False, `execute` raises ConnectionException out of the `with`
+      { s with attempts := s.attempts + 1, sock := Option.none,
+               threads := upd s.threads t
+                 { th with ops := (match scope with
+                                   | .leakOnFail => []      -- the mutant: the client lock stays with this thread
+                                   | _ => ops.filter (· == .crelease)),
+                           results := th.results ++ [(th.cur, th.tidv, .raised .modbusExc)] },
+               trace := (t, .open) :: s.trace }
+  | .iopen =>     -- the `create_connection` of the connect in `_transact` completes
+    if s.connOk s.attempts then
+      { s with sock := some s.nextConn, nextConn := s.nextConn + 1, attempts := s.attempts + 1,
+               threads := upd s.threads t { th with ops := ops }, trace := (t, .iopen) :: s.trace }
+    else            -- `connect()` returns False, `_send` raises ConnectionException (not caught anywhere)
+      raiseOut { s with attempts := s.attempts + 1, sock := Option.none } t th ops .iopen .modbusExc
+  | .flush =>     -- `_send`: `_flush_input()` discards what waits on `client.socket`; the frame goes to that socket
+    match s.sock with
+    | some c =>
+      { s with stream := upd s.stream c [],
+               threads := upd s.threads t { th with ops := ops, sconn := c }, trace := (t, .flush) :: s.trace }
+    | Option.none => raiseOut s t th ops .flush .attr     -- `None.recv` (somebody closed the client)
   | .acquire =>
     match lockKey scope th.cur with
     | Option.none => { s with threads := upd s.threads t { th with ops := ops }, trace := (t, .acquire) :: s.trace }
@@ -301,11 +341,11 @@ def stepOp (scope : LockScope) (s : State) (t : Nat) (th : Thread) (ops : List O
              trace := (t, .tid) :: s.trace }
   | .connect =>   -- `_transact`: `client.connect()` (check, then open if there is no socket), `framer.buildPacket`
     match s.sock with
-    | some c =>
-      { s with threads := upd s.threads t { th with ops := ops, frame := frameOf th.tidv th.cur, sconn := c },
+    | some _ =>
+      { s with threads := upd s.threads t { th with ops := ops, frame := frameOf th.tidv th.cur },
                trace := (t, .connect) :: s.trace }
     | Option.none =>
-      { s with threads := upd s.threads t { th with ops := .open :: ops, frame := frameOf th.tidv th.cur },
+      { s with threads := upd s.threads t { th with ops := .iopen :: ops, frame := frameOf th.tidv th.cur },
                trace := (t, .connect) :: s.trace }
   | .send1 =>
     { s with wire := s.wire ++ [⟨t, true, th.sconn, th.frame.take 7⟩],
@@ -354,11 +394,13 @@ def stepOp (scope : LockScope) (s : State) (t : Nat) (th : Thread) (ops : List O
                noResp := noteResp s.noResp th.cur.unit (th.hdr ++ (s.stream c).take (restSize th.hdr)),
                threads := upd s.threads t { th with ops := ops, resp := th.hdr ++ (s.stream c).take (restSize th.hdr) },
                trace := (t, .recv2) :: s.trace }
-  | .process =>
-    { s with buf := (processResp th.cur.unit s.buf th.resp).2,
+  | .process =>   -- a transaction that ends without its reply closes the connection
+    { s with buf := (processResp th.cur.unit th.tidv s.buf th.resp).2,
+             sock := if (processResp th.cur.unit th.tidv s.buf th.resp).1.isOk then s.sock else Option.none,
              threads := upd s.threads t
                { th with ops := ops,
-                         results := th.results ++ [(th.cur, th.tidv, (processResp th.cur.unit s.buf th.resp).1)] },
+                         results := th.results ++
+                           [(th.cur, th.tidv, (processResp th.cur.unit th.tidv s.buf th.resp).1)] },
              trace := (t, .process) :: s.trace }
   | .release =>
     match lockKey scope th.cur with
@@ -369,7 +411,7 @@ def stepOp (scope : LockScope) (s : State) (t : Nat) (th : Thread) (ops : List O
 
 /-- the caller turns to its next request (plain code, nothing shared is touched) -/
 def stepBegin (scope : LockScope) (s : State) (t : Nat) (th : Thread) (r : Req) (rest : List Req) : State :=
-  { s with threads := upd s.threads t { th with todo := rest, cur := r, ops := txnOps scope r } }
+  { s with threads := upd s.threads t { th with todo := rest, cur := r, ops := txnOps scope r, tidv := 0 } }
 
 /-- thread `t` performs its next operation (or stays put if parked / finished) -/
 def step (scope : LockScope) (s : State) (t : Nat) : State :=
@@ -387,9 +429,9 @@ def runSched (scope : LockScope) (s : State) : List Nat → State
 
 /-- all threads idle, nothing on the wire; thread `i` will issue `reqs i`; `connected` = the client was connected
     (connection 0) before the threads were started -/
-def init (reqs : Nat → List Req) (connected : Bool) : State :=
+def init (reqs : Nat → List Req) (connected : Bool) (connOk : Nat → Bool := fun _ => true) : State :=
   { threads := fun i => { todo := reqs i }, locks := fun _ => Option.none,
-    sock := if connected then some 0 else Option.none, nextConn := if connected then 1 else 0 }
+    sock := if connected then some 0 else Option.none, nextConn := if connected then 1 else 0, connOk := connOk }
 
 /-! ### observations -/
 
